@@ -260,6 +260,11 @@ def _feature_oracle(ctx, V, F, declared, only_border, corner_order, flag_corners
         # the documented defaults (only_border=False, flag_corners=True, corner_order=4) left to the library
         ctx.cls("detector:default_options")
         ok, det = ctx.call("FeatureEdgeDetector", lambda: M.processing.FeatureEdgeDetector(verbose=False), monitor="features")
+    elif len(F) % 3 == 1:
+        # without the visualisation graph (what the library's own connection classes ask for): every other derived datum must still be filled
+        ctx.cls("detector:compute_feature_graph=False")
+        ok, det = ctx.call("FeatureEdgeDetector", lambda: M.processing.FeatureEdgeDetector(only_border=only_border, flag_corners=flag_corners, corner_order=corner_order,
+                                                                                           compute_feature_graph=False, verbose=False), monitor="features")
     else:
         ok, det = ctx.call("FeatureEdgeDetector", lambda: M.processing.FeatureEdgeDetector(only_border=only_border, flag_corners=flag_corners, corner_order=corner_order,
                                                                                            verbose=False), monitor="features")
